@@ -10,6 +10,7 @@ import (
 	"reflect"
 	"sort"
 	"syscall"
+	"time"
 
 	oci "github.com/opencontainers/runtime-spec/specs-go"
 	"sigs.k8s.io/yaml"
@@ -280,6 +281,19 @@ func (cacheStream) Generate(rng *rand.Rand, tier string, emit func(Case)) {
 			var pm map[string]any
 			_ = json.Unmarshal(pj, &pm)
 			emit(Case{"op": "refresh", "layout": pm, "auto": false, "dropuid": true, "nospawn": true})
+			// a directory that cannot be listed when the (auto-refresh) cache is created becomes listable again:
+			// no event announces that, the cache has to try again by itself at the next query
+			rl := l
+			rl.Perms = map[string]string{}
+			for p := range l.Phys {
+				if rng.Intn(2) == 0 {
+					rl.Perms[p] = "noread"
+				}
+			}
+			rj, _ := json.Marshal(rl)
+			var rm map[string]any
+			_ = json.Unmarshal(rj, &rm)
+			emit(Case{"op": "permrestore", "layout": rm, "auto": true, "dropuid": true, "nospawn": true})
 		}
 		if i%5 == 0 {
 			// the same through an auto-refresh cache (explicit Refresh on an up-to-date cache reports the cached errors)
@@ -467,7 +481,31 @@ func (cacheStream) Execute(c Case) {
 		lj, _ := json.Marshal(c["layout"])
 		_ = json.Unmarshal(lj, &l)
 		var view []any
-		dirs, view = materialize(l)
+		var restore []any
+		if c["op"] == "permrestore" {
+			// the model's view is the tree without the faults; the faults are applied afterwards and undone by the child
+			faults := l.Perms
+			l.Perms = nil
+			dirs, view = materialize(l)
+			configured := map[string]bool{}
+			for _, d := range dirs {
+				configured[d] = true
+			}
+			for p := range l.Phys {
+				path := filepath.Join(cacheRoot, "phys", p)
+				if !configured[path] {
+					continue
+				}
+				_ = os.Chown(path, 65534, 65534) // the unprivileged child changes modes and writes the trigger file
+				if faults[p] == "noread" {
+					restore = append(restore, path)
+				} else if c["trigger"] == nil {
+					c["trigger"] = path
+				}
+			}
+		} else {
+			dirs, view = materialize(l)
+		}
 		if view == nil {
 			view = []any{} // an empty directory list
 		}
@@ -484,7 +522,7 @@ func (cacheStream) Execute(c Case) {
 				return
 			}
 			self, _ := os.Executable()
-			child := Case{"op": c["op"], "auto": c["auto"], "nospawn": true, "prebuiltdirs": strs2any(dirs)}
+			child := Case{"op": "refresh", "auto": c["auto"], "nospawn": true, "prebuiltdirs": strs2any(dirs), "restore": restore, "trigger": c["trigger"]}
 			cj, _ := json.Marshal(child)
 			cmd := exec.Command(self, "child", "cachecase", string(cj))
 			cmd.SysProcAttr = &syscall.SysProcAttr{Credential: &syscall.Credential{Uid: 65534, Gid: 65534}}
@@ -531,6 +569,34 @@ func (cacheStream) Execute(c Case) {
 	}
 	if auto {
 		defer func() { _ = cache.Configure(cdi.WithAutoRefresh(false)) }()
+	}
+	if rs, ok := c["restore"].([]any); ok && len(rs) > 0 {
+		// watched directories lose their read permission; a refresh happens meanwhile (triggered by a change in
+		// another watched directory); the permission comes back — which no event announces
+		_ = cache.ListDevices()
+		for _, p := range rs {
+			_ = os.Chmod(p.(string), 0o311)
+		}
+		if trig, _ := c["trigger"].(string); trig != "" {
+			probe := filepath.Join(trig, "zz-probe.json")
+			_ = os.WriteFile(probe, []byte(`{"cdiVersion":"0.6.0","kind":"probe.com/x","devices":[{"name":"p","containerEdits":{"env":["P=1"]}}]}`), 0o644)
+			for deadline := time.Now().Add(3 * time.Second); time.Now().Before(deadline); time.Sleep(20 * time.Millisecond) {
+				errs, all := cache.GetErrors(), true
+				for _, p := range rs {
+					if _, ok := errs[p.(string)]; !ok {
+						all = false
+					}
+				}
+				if all {
+					break
+				}
+			}
+			_ = os.Remove(probe)
+			time.Sleep(150 * time.Millisecond)
+		}
+		for _, p := range rs {
+			_ = os.Chmod(p.(string), 0o755)
+		}
 	}
 	var rerr error
 	if late, _ := c["latedirs"].(bool); !late {
